@@ -977,7 +977,7 @@ class Terms:
             if v is None and "bits" in op:
                 v = int(op["bits"])
             if v is None:
-                v = op.get("uneval") or op.get("fn") or op["s"]
+                v = op.get("uneval") or op.get("fn_full") or op.get("fn") or op["s"]
             return ("const", v)
         if op["k"] in ("copy", "move"):
             l, p = norm_place(op["place"])
